@@ -193,6 +193,21 @@ def gen_cases(rng, tier):
         b.add(("isty", j, t))
         if len(b.ops) <= 40:
             add(b.ops, {"gen": "is_of_type"})
+    # --- encode_value (bit_encoding/encode.rs) at every alignment of the writer: the bits it writes are the compact
+    # encoding (decoded back into the pool), for padding-free types of width 8k + r and for types with padding
+    pf = [Sum(vc.word(3), vc.word(3)), Prod(vc.word(3), BIT), Prod(BIT, vc.word(4)), Sum(vc.word(4), vc.word(4)),
+          Prod(vc.word(3), Prod(BIT, BIT)), Prod(Sum(vc.word(3), vc.word(3)), Sum(BIT, BIT)), Prod(vc.word(5), vc.word(2)),
+          Prod(vc.word(6), BIT), Sum(vc.word(8), vc.word(8)), vc.word(3), vc.word(5)]
+    for kk in range(len(pf) + (30 if tier == "quick" else 400)):
+        b = Builder(rng)
+        t = pf[kk] if kk < len(pf) else vc.rand_type(rng, rng.range(1, 6))
+        for _r in range(2):
+            v = vc.rand_value(rng, t)
+            i, _h = b.any_history(t, v)
+            for pre in ((0, 1, 7) if tier == "quick" and kk >= len(pf) else range(8)):
+                b.add(("encv", i, pre))
+        if len(b.ops) <= 60:
+            add(b.ops, {"gen": "encode_value"})
     # --- end of stream in from_compact_bits: every byte-aligned prefix of an encoding, and of padded ones
     for _ in range(60 if tier == "quick" else 600):
         t = vc.rand_type(rng, rng.range(1, 7))
@@ -271,6 +286,8 @@ def prop_check(c, r):
             return ("consumption", "%s: from_padded_bits consumed %s bits, the encoding has %d" % (where, extra, width(t)))
         if name == "cmp" and extra != [len(compact_enc(v))]:
             return ("consumption", "%s: from_compact_bits consumed %s bits, the encoding has %d" % (where, extra, len(compact_enc(v))))
+        if name == "encv" and extra != [len(compact_enc(v))]:
+            return ("encode-value", "%s: encode_value wrote %s bits, the compact encoding has %d" % (where, extra, len(compact_enc(v))))
         if name == "isty" and extra != [1 if t == o[2] else 0]:
             return ("is-of-type", "%s: is_of_type(%s) answered %s on a value of type %s" % (where, ty_str(o[2])[:40], extra, ty_str(t)[:40]))
         if d["tokens"] != ty_tokens(t):
